@@ -112,7 +112,7 @@ fn profile(name: &str) -> RawCfg {
             sizes: vec![100],
             at_sizes: vec![50, 5000],
             offs: vec![Off::Zero, Off::Mid],
-            kinds: kinds(&["write", "write_at", "truncate", "truncate_write", "rename", "flush", "region_flush"]),
+            kinds: kinds(&["write", "write_at", "batch_write", "truncate", "truncate_write", "rename", "flush", "region_flush"]),
             prefill: 2,
             prefill_bytes: 3000,
             ..base
@@ -132,8 +132,8 @@ fn profile(name: &str) -> RawCfg {
             at_sizes: vec![1, 5000],
             offs: vec![Off::Zero, Off::Mid, Off::End],
             kinds: kinds(&[
-                "create", "write", "write_at", "truncate", "truncate_write", "flush", "reopen",
-                "refused",
+                "create", "write", "write_at", "batch_write", "truncate", "truncate_write", "flush",
+                "reopen", "refused",
             ]),
             ..base
         },
@@ -154,8 +154,8 @@ fn profile(name: &str) -> RawCfg {
             at_sizes: vec![0, 1, 4096, 9000],
             offs: vec![Off::Zero, Off::Mid, Off::End],
             kinds: kinds(&[
-                "create", "write", "write_at", "truncate", "truncate_write", "rename", "remove",
-                "retain", "flush", "region_flush", "compact", "reopen", "refused",
+                "create", "write", "write_at", "batch_write", "truncate", "truncate_write", "rename",
+                "remove", "retain", "flush", "region_flush", "compact", "reopen", "refused",
             ]),
             ..base
         },
